@@ -3,7 +3,7 @@
 //!   format-record <out.ndjson> <n> <maxcells>      impl -> spec: random contents, their image and re-parse
 //!   dump <file> <le|be> <out.ndjson>               project a file from disk as a format event
 //!   sm-replay / sm-record                           see below (state machine)
-use mila::{BinArchive, BinArchiveReader, BinArchiveWriter, EncodedStringReader, Endian};
+use mila::{ArchiveError, BinArchive, BinArchiveReader, BinArchiveWriter, EncodedStringReader, Endian};
 use mvh::proj::*;
 use mvh::util::*;
 use serde_json::{json, Value};
@@ -404,6 +404,20 @@ fn from_usize(u: usize) -> i64 {
 fn res_err() -> Value {
     json!({"ok": false, "some": false, "v": []})
 }
+/// A refused typed / raw access (C04: "otherwise it returns an out-of-bounds error"): the out-of-bounds error is the
+/// specification's ResErr; an error of any other kind is reported with v = [-2], which no outcome allows.
+fn err_kind(e: &ArchiveError) -> Value {
+    match e {
+        ArchiveError::OutOfBoundsAddress(..) => res_err(),
+        _ => json!({"ok": false, "some": false, "v": [-2]}),
+    }
+}
+fn typed<T>(r: Result<T, ArchiveError>, f: impl FnOnce(T) -> Value) -> Value {
+    match r {
+        Ok(x) => f(x),
+        Err(e) => err_kind(&e),
+    }
+}
 fn res_unit() -> Value {
     json!({"ok": true, "some": false, "v": []})
 }
@@ -470,22 +484,19 @@ fn reader_call(rd: &mut BinArchiveReader, ev: &Value) -> Value {
             res_unit()
         }
         "s_read_val" => {
-            let r = match (n, ty) {
-                (1, "u") => rd.read_u8().map(|x| x as u32).ok(),
-                (1, _) => rd.read_i8().map(|x| x as u8 as u32).ok(),
-                (2, "u") => rd.read_u16().map(|x| x as u32).ok(),
-                (2, _) => rd.read_i16().map(|x| x as u16 as u32).ok(),
-                (4, "u") => rd.read_u32().ok(),
-                (4, "i") => rd.read_i32().map(|x| x as u32).ok(),
-                (4, _) => rd.read_f32().map(|x| x.to_bits()).ok(),
+            let dg = |x: u32| res_val(digits_be(x, n));
+            match (n, ty) {
+                (1, "u") => typed(rd.read_u8(), |x| dg(x as u32)),
+                (1, _) => typed(rd.read_i8(), |x| dg(x as u8 as u32)),
+                (2, "u") => typed(rd.read_u16(), |x| dg(x as u32)),
+                (2, _) => typed(rd.read_i16(), |x| dg(x as u16 as u32)),
+                (4, "u") => typed(rd.read_u32(), dg),
+                (4, "i") => typed(rd.read_i32(), |x| dg(x as u32)),
+                (4, _) => typed(rd.read_f32(), |x| dg(x.to_bits())),
                 _ => usage("s_read_val width"),
-            };
-            r.map(|x| res_val(digits_be(x, n))).unwrap_or_else(res_err)
+            }
         }
-        "s_read_bytes" => match rd.read_bytes(n) {
-            Ok(b) => res_val(bytes_to_json(&b)),
-            Err(_) => res_err(),
-        },
+        "s_read_bytes" => typed(rd.read_bytes(n), |b| res_val(bytes_to_json(&b))),
         "s_read_string" => opt_of(rd.read_string().map(|o| o.map(|s| sj_json(&s)))),
         "s_read_pointer" => opt_of(rd.read_pointer().map(|o| o.map(|p| json!([from_usize(p)])))),
         "s_read_labels" => opt_of(rd.read_labels().map(|o| o.map(|l| Value::Array(l.iter().map(|x| sj_json(x)).collect())))),
@@ -541,9 +552,9 @@ fn writer_call(w: &mut BinArchiveWriter, ev: &Value) -> Value {
                 (4, _) => w.write_f32(f32::from_bits(x)),
                 _ => usage("s_write_val width"),
             };
-            unit_of(r)
+            typed(r, |_| res_unit())
         }
-        "s_write_bytes" => unit_of(w.write_bytes(&json_to_bytes(bs))),
+        "s_write_bytes" => typed(w.write_bytes(&json_to_bytes(bs)), |_| res_unit()),
         "s_write_string" => unit_of(w.write_string(Some(&s_of(bs)))),
         "s_delete_string" => unit_of(w.write_string(None)),
         "s_write_pointer" => unit_of(w.write_pointer(Some(t))),
@@ -598,26 +609,21 @@ fn sm_apply(a: &mut BinArchive, ev: &Value) -> (Value, i64) {
         }
         "deallocate" => (unit_of(a.deallocate(addr, n, ge)), 0),
         "truncate" => (unit_of(a.truncate(addr)), 0),
-        "read_bytes" => (
-            match a.read_bytes(addr, n) {
-                Ok(b) => res_val(bytes_to_json(b)),
-                Err(_) => res_err(),
-            },
-            0,
-        ),
-        "write_bytes" => (unit_of(a.write_bytes(addr, &json_to_bytes(bs))), 0),
+        "read_bytes" => (typed(a.read_bytes(addr, n), |b| res_val(bytes_to_json(b))), 0),
+        "write_bytes" => (typed(a.write_bytes(addr, &json_to_bytes(bs)), |_| res_unit()), 0),
         "read_val" => {
+            let dg = |x: u32| res_val(digits_be(x, n));
             let r = match (n, ty) {
-                (1, "u") => a.read_u8(addr).map(|x| x as u32).ok(),
-                (1, _) => a.read_i8(addr).map(|x| x as u8 as u32).ok(),
-                (2, "u") => a.read_u16(addr).map(|x| x as u32).ok(),
-                (2, _) => a.read_i16(addr).map(|x| x as u16 as u32).ok(),
-                (4, "u") => a.read_u32(addr).ok(),
-                (4, "i") => a.read_i32(addr).map(|x| x as u32).ok(),
-                (4, _) => a.read_f32(addr).map(|x| x.to_bits()).ok(),
+                (1, "u") => typed(a.read_u8(addr), |x| dg(x as u32)),
+                (1, _) => typed(a.read_i8(addr), |x| dg(x as u8 as u32)),
+                (2, "u") => typed(a.read_u16(addr), |x| dg(x as u32)),
+                (2, _) => typed(a.read_i16(addr), |x| dg(x as u16 as u32)),
+                (4, "u") => typed(a.read_u32(addr), dg),
+                (4, "i") => typed(a.read_i32(addr), |x| dg(x as u32)),
+                (4, _) => typed(a.read_f32(addr), |x| dg(x.to_bits())),
                 _ => usage("read_val width"),
             };
-            (r.map(|x| res_val(digits_be(x, n))).unwrap_or_else(res_err), 0)
+            (r, 0)
         }
         "write_val" => {
             let x = digits_val(bs);
@@ -631,7 +637,7 @@ fn sm_apply(a: &mut BinArchive, ev: &Value) -> (Value, i64) {
                 (4, _) => a.write_f32(addr, f32::from_bits(x)),
                 _ => usage("write_val width"),
             };
-            (unit_of(r), 0)
+            (typed(r, |_| res_unit()), 0)
         }
         "read_string" => (opt_of(a.read_string(addr).map(|o| o.map(|s| sj_json(&s)))), 0),
         "read_pointer" => (opt_of(a.read_pointer(addr).map(|o| o.map(|p| json!([from_usize(p)])))), 0),
@@ -941,8 +947,10 @@ fn random_event(rng: &mut Rng, p: &Value, focus: &str) -> Value {
                 None => ev("read_pointer", addr(rng), 0, false, json!([]), 0, ""),
             },
             76..=80 => match free_cell(rng, p) {
-                Some(a) => ev(&pre("write_c_string"), a, 0, false, name(rng), 0, ""),
-                None => ev("read_labels", addr(rng), 0, false, json!([]), 0, ""),
+                Some(a) if !rng.chance(1, 4) => ev(&pre("write_c_string"), a, 0, false, name(rng), 0, ""),
+                // an address at which no cell fits: the write is refused (or, where the statements are silent, performed)
+                _ => ev(&pre(["write_c_string", "write_string", "write_pointer"][rng.below(3)]),
+                        [size, size + 4, (size - 2).max(0) + 1, MAXU - 3, MAXU][rng.below(5)], 0, false, name(rng), 0, ""),
             },
             81..=88 => ev(&pre("write_label"), if rng.chance(1, 3) { rng.below(size as usize + 1) as i64 } else { addr(rng) }, 0, false, name(rng), 0, ""),
             89..=90 => ev("write_labels", addr(rng), 0, false, json!([name(rng), name(rng)]), 0, ""),
@@ -1000,7 +1008,11 @@ fn random_event(rng: &mut Rng, p: &Value, focus: &str) -> Value {
                 None => ev("read_pointer", addr(rng), 0, false, json!([]), 0, ""),
             },
             90..=93 => ev(&pre("write_label"), addr(rng), 0, false, name(rng), 0, ""),
-            94..=95 => ev(&pre("delete_string"), addr(rng), 0, false, json!([]), 0, ""),
+            94 => ev(&pre("delete_string"), addr(rng), 0, false, json!([]), 0, ""),
+            95 => match free_cell(rng, p) {
+                Some(a) if rng.chance(1, 2) => ev(&pre("write_c_string"), a, 0, false, name(rng), 0, ""),
+                _ => ev(&pre("write_c_string"), [size, size + 1, (size - 3).max(0), MAXU - 3, MAXU][rng.below(5)], 0, false, name(rng), 0, ""),
+            },
             96 => ev("delete_label", addr(rng), rng.below(3) as i64, false, json!([]), 0, ""),
             97 => match rng.below(3) {
                 0 => ev("s_read_label", addr(rng), rng.below(3) as i64, false, json!([]), 0, ""),
@@ -1041,6 +1053,18 @@ fn sm_initial(rng: &mut Rng, focus: &str, maxcells: usize) -> (BinArchive, Strin
     }
 }
 
+fn serialize_event(a: &BinArchive, e: &str) -> Value {
+    let mut sv = ev("serialize", 0, 0, false, json!([]), 0, "");
+    sv["res"] = match catch(|| a.serialize()) {
+        Ok(Ok(bytes)) => res_val(bytes_to_json(&bytes)),
+        Ok(Err(_)) => res_err(),
+        Err(pn) => json!({"panic": pn}),
+    };
+    sv["pos"] = json!(0);
+    sv["post"] = sm_project(a, e);
+    sv
+}
+
 /// Random histories.  Every third run drives TWO archives alive at the same time (calls interleaved at random,
 /// events carry "obj"): nothing done to one archive may show in the other.
 fn sm_record(out_path: &str, focus: &str, runs: usize, len: usize) {
@@ -1074,14 +1098,7 @@ fn sm_record(out_path: &str, focus: &str, runs: usize, len: usize) {
             let p = sm_project(a, &e);
             // now and then (and at the end of every run): serialize the archive as the history left it
             if step + 1 == len || rng.chance(1, 40) {
-                let mut sv = ev("serialize", 0, 0, false, json!([]), 0, "");
-                sv["res"] = match catch(|| a.serialize()) {
-                    Ok(Ok(bytes)) => res_val(bytes_to_json(&bytes)),
-                    Ok(Err(_)) => res_err(),
-                    Err(pn) => json!({"panic": pn}),
-                };
-                sv["pos"] = json!(0);
-                sv["post"] = sm_project(a, &e);
+                let mut sv = serialize_event(a, &e);
                 tag(&mut sv, o);
                 out.put(&sv);
             }
@@ -1107,10 +1124,17 @@ fn sm_record(out_path: &str, focus: &str, runs: usize, len: usize) {
             tag(&mut evv, o);
             match catch(|| sm_apply(a, &evv)) {
                 Ok((res, pos)) => {
+                    // a refused call must leave nothing behind - not even something only a later serialize() shows
+                    let refused = res["ok"].as_bool() == Some(false);
                     evv["res"] = res;
                     evv["pos"] = json!(pos);
                     evv["post"] = sm_project(a, &e);
                     out.put(&evv);
+                    if refused && rng.chance(1, 3) {
+                        let mut sv = serialize_event(a, &e);
+                        tag(&mut sv, o);
+                        out.put(&sv);
+                    }
                 }
                 Err(pn) => {
                     evv["res"] = json!({"panic": pn});
